@@ -46,5 +46,22 @@ theorem segZero_cover {α : Type} (n : Nat) (ptr : Nat → Nat) (z : α) (h0 : p
   rw [List.mem_range'_1]
   omega
 
+theorem seg_cover {α : Type} (n : Nat) (ptr : Nat → Nat) (f : Nat → α) (h0 : ptr 0 = 0)
+    (hm : ∀ i, i < n → ptr i ≤ ptr (i + 1)) : ∀ q, q < ptr n → ∃ x ∈ segStores n ptr f, x.1 = q := by
+  intro q hq
+  have hex : ∃ i, i < n ∧ ptr i ≤ q ∧ q < ptr (i + 1) := by
+    induction n with
+    | zero => rw [h0] at hq; omega
+    | succ k ih =>
+      by_cases h : q < ptr k
+      · obtain ⟨i, h1, h2, h3⟩ := ih (fun i hi => hm i (by omega)) h
+        exact ⟨i, by omega, h2, h3⟩
+      · exact ⟨k, by omega, by omega, hq⟩
+  obtain ⟨i, h1, h2, h3⟩ := hex
+  unfold segStores
+  refine ⟨(q, f q), List.mem_flatMap.mpr ⟨i, List.mem_range.mpr h1, List.mem_map.mpr ⟨q, ?_, rfl⟩⟩, rfl⟩
+  rw [List.mem_range'_1]
+  omega
+
 end Defined
 end Amgcl
